@@ -94,14 +94,3 @@ pub open spec fn has_call(e: IdedExpr, s: Seq<char>) -> bool
 }
 #[verifier::external_body]
 pub proof fn axiom_str_key_model<'a>() ensures vstd::std_specs::hash::obeys_key_model::<&'a str>() {}
-pub mod axr {
-    use super::*;
-    pub uninterp spec fn pat_starts<P>(s: Seq<char>, p: P) -> bool;
-    #[verifier::allow(undeclared_external_trait)]
-    pub assume_specification<P: std::str::pattern::Pattern>[str::starts_with](s: &str, p: P) -> (r: bool) ensures r == pat_starts(s@, p);
-    /// a `char` pattern in starts_with tests the first character (std, ASSUMED)
-    #[verifier::external_body]
-    pub broadcast proof fn axiom_char_pattern(s: Seq<char>, c: char)
-        ensures #[trigger] pat_starts::<char>(s, c) == (s.len() > 0 && s[0] == c) {}
-}
-pub use axr::*;
